@@ -424,7 +424,8 @@ func (c *Ctx) Finish(ob *Obligations) int {
 			"Lean 4.33.0 kernel (lake build; thorough tier re-checks with leanchecker)",
 			"axioms: only propext, Classical.choice, Quot.sound (audited with #print axioms on every property theorem)",
 			"tools/extract (go/ast fact extractor) for the regenerated Extracted.lean",
-			"hand-written Lean Impl models, validated against the Go code by the differential run counted in traces_validated_against_impl (sampled)",
+			"tools/go2lean (go/types translator of the functions in tools/go2lean/targets.json) for the regenerated Gen.lean; validated by executing the translated code on the harness inputs (translated_code_ties)",
+			"hand-written Lean Impl models: refined by the translated code as a theorem (Properties/*g.lean) where a translation exists, otherwise validated against the Go code by the differential run counted in traces_validated_against_impl (sampled)",
 			"Go standard library, x/crypto/cryptobyte, x/text, afero as used by the code under test",
 		}
 	}
